@@ -192,7 +192,14 @@ impl Summary {
             *self.known_hits.entry(c.to_string()).or_insert(0) += 1;
         }
         let n_same = self.failures.iter().filter(|f| f["class"] == json!(class) && f["cell"] == json!(cell)).count();
-        if n_same < 3 && self.failures.len() < self.max_failures {
+        // The verdict of `check` is read from these records, so records of listed finding classes must never crowd out a
+        // failure outside every class: classed records share `max_failures` minus a reserve, unclassed ones have a quota of
+        // their own, and the first record of any class is always kept (a class the findings file does not list is unlisted too).
+        let n_classed = self.failures.iter().filter(|f| !f["class"].is_null()).count();
+        let n_unclassed = self.failures.len() - n_classed;
+        let first_of_class = !self.failures.iter().any(|f| f["class"] == json!(class));
+        let room = if class.is_some() { n_classed < self.max_failures.saturating_sub(16).max(8) } else { n_unclassed < self.max_failures.max(24) };
+        if first_of_class || (n_same < 3 && room) {
             self.failures.push(json!({"cell": cell, "class": class, "case": case, "detail": detail}));
         } else if class.is_none() {
             *self.distribution.entry("unlisted_failures_not_shown".to_string()).or_insert(0) += 1;
